@@ -114,6 +114,9 @@ int main() {
             }
             if (w[0] == "pktw" && w.size() >= 2) {
                 if (w.size() - 2 > 8) return "bad-op";      // 4 blocks fill the TCP option space
+                // an empty SACK option does not serialise (TCP::calculate_options_size vs write_option, DESIGN §7 #10,
+                // property C02): not this property's business
+                if (w.size() == 3 && w[2] == "-") return "bad-op";
                 TCP tcp(80, 1234);
                 tcp.ack_seq(u32(w[1]));
                 tcp.flags(TCP::ACK);
